@@ -88,3 +88,30 @@ pub fn depot_activity(location: Location, tw_start: Float, tw_end: Float) -> Act
 /// explores the complete drop glue of `Single`/`Actor`/`Dimensions` (with dynamic dispatch over every
 /// `dyn Any` payload) up to the unwinding bound. Drop glue is not the subject of any property here.
 pub fn arc_drop_noop<T: ?Sized, A: std::alloc::Allocator>(_this: &mut Arc<T, A>) {}
+
+/// Exact model of `f64::sqrt` on the small integers that matrix lengths in the harnesses can take
+/// (CBMC over-approximates `sqrt` nondeterministically). Values are the correctly rounded IEEE results.
+pub fn sqrt_small(x: Float) -> Float {
+    const TABLE: [Float; 17] = [
+        0.0,
+        1.0,
+        1.4142135623730951,
+        1.7320508075688772,
+        2.0,
+        2.23606797749979,
+        2.449489742783178,
+        2.6457513110645907,
+        2.8284271247461903,
+        3.0,
+        3.1622776601683795,
+        3.3166247903554,
+        3.4641016151377544,
+        3.605551275463989,
+        3.7416573867739413,
+        3.872983346207417,
+        4.0,
+    ];
+    let n = x as usize;
+    assert!(x >= 0. && n <= 16 && n as Float == x, "sqrt_small: argument outside the modelled table");
+    TABLE[n]
+}
